@@ -27,6 +27,8 @@ mod os;
 use dispatcher::*;
 #[cfg(feature = "verif-hooks")]
 pub use dispatcher::verif_stepper;
+#[cfg(feature = "verif-hooks")]
+pub use executor::verif_exec;
 use executor::*;
 pub use imp::*;
 use internal_events::*;
